@@ -65,6 +65,8 @@ def parse_transcript(line):
             chains.append([(item, False, [])])
         elif t[0] == "Q" and chains:
             chains[-1].append(("P" + item[1:], True, []))
+        elif t[0] == "L" and len(t) > 1:
+            extras.append(("L", t[1], [], "", ""))
         elif t[0] in ("E", "T"):
             eq = t.index("=")
             extras.append((t[0], t[1] if t[0] == "E" else "team", t[2:eq] if t[0] == "E" else t[1:eq], t[eq + 1], t[eq + 2]))
@@ -207,6 +209,9 @@ def run(chk, replay=None):
             reqs.append(f"intron {LSETS[k % 4]} {rng.next() % 1000000007} {rng.between(3, 33)} {rng.between(2, 4)}")
         for k in range(150 if quick else 3000):       # other programs behind the same interpreter object
             reqs.append(f"swap {SETS[k % 5]} {rng.next() % 1000000007} {rng.between(3, 33)} {rng.between(2, 4)}")
+        for k in range(120 if quick else 2400):       # ephemeral constants with parameters outside int (load / gene::par)
+            reqs.append(f"numload {('int', 'typed3')[k % 2]} {rng.next() % 1000000007} {rng.between(3, 25)} "
+                        f"{rng.between(2, 4)} {('load', 'par')[(k // 2) % 2]}")
 
     state = {"ndis": 0, "programs": 0}
     found = []     # failing (program, example) pairs; the smallest programs are reported first
@@ -229,9 +234,12 @@ def run(chk, replay=None):
                 continue
             qt = q.split()
             chk.count("set:" + qt[1] if qt[0] == "scn" else qt[0] + ":" + qt[1] if qt[0] in
-                      ("long", "pen", "team", "layout", "intron", "swap") else "set:" + qt[0])
+                      ("long", "pen", "team", "layout", "intron", "swap", "numload") else "set:" + qt[0])
             chains, extras = parse_transcript(a)
             for (what, tag, ex, va, vb) in extras:
+                if what == "L":
+                    chk.count("i_mep_load:" + tag)
+                    continue
                 chk.count("equal_pair:" + tag)
                 chk.evaluations += 1
                 if va != vb:
